@@ -101,6 +101,39 @@ func (r res) String() string {
 	return r.status + " " + r.err
 }
 
+// callLimited runs f inside a golua runtime context with a hard memory limit
+// of 1 MiB.  It is used for string.unpack on hostile data with an "s" option,
+// where golua sizes an allocation from the length prefix: the limit turns a
+// multi-gigabyte allocation into an error (a killed context counts as an
+// error raised) so that bulk families stay cheap and deterministic.  The
+// unlimited behaviour on such inputs is the subject of family unpack-hugelen.
+func callLimited(f rt.Value, args ...rt.Value) (r res) {
+	l := lua()
+	defer func() {
+		if p := recover(); p != nil {
+			s := fmt.Sprint(p)
+			if k := strings.IndexByte(s, '\n'); k >= 0 {
+				s = s[:k]
+			}
+			r = res{status: "gopanic", err: s}
+			theL = nil
+		}
+	}()
+	term := rt.NewTerminationWith(nil, 0, true)
+	t := l.m.R.MainThread()
+	ctx, err := t.CallContext(rt.RuntimeContextDef{HardLimits: rt.RuntimeResources{Memory: 1 << 20}}, func() error {
+		return rt.Call(t, f, args, term)
+	})
+	if ctx.Status() == rt.StatusKilled {
+		theL = nil
+		return res{status: "err", err: "context killed: memory limit"}
+	}
+	if err != nil {
+		return res{status: "err", err: err.Error()}
+	}
+	return res{status: "ok", vals: append([]rt.Value(nil), term.Etc()...)}
+}
+
 func call(f rt.Value, args ...rt.Value) (r res) {
 	l := lua()
 	defer func() {
@@ -326,6 +359,10 @@ func familyWanted(name string) bool {
 var strictSubtype = os.Getenv("C17_STRICT_TOSTRING_SUBTYPE") == "1"
 
 func main() {
+	if m := os.Getenv("C17_XCHECK"); m != "" {
+		xcheckMain(m) // development aid, see xcheck.go
+		return
+	}
 	core.Main(&core.Check{
 		ID:    "C17",
 		Level: "model_checking",
